@@ -127,9 +127,51 @@ def default_effects(p):
     return out
 
 
+_LOCAL_MUT = {"append", "extend", "insert", "add", "update", "setdefault",
+              "pop", "remove", "clear", "sort", "reverse"}
+
+
+def _occurs(term, sub):
+    if term == sub:
+        return True
+    if isinstance(term, tuple):
+        return any(_occurs(x, sub) for x in term)
+    return False
+
+
+def _non_escaping_containers(p):
+    """Fresh local containers ([]#n / {}#n) that are only ever the receiver
+    of their own mutator calls: bookkeeping that no one else can observe."""
+    fresh = set()
+    for e in p.effects:
+        if e[0] == "call" and e[1][1][0] == "attr" \
+                and e[1][1][1][0] in ("newlist", "newdict") \
+                and e[1][1][2] in _LOCAL_MUT:
+            fresh.add(e[1][1][1])
+    escaping = set()
+    for c in fresh:
+        if p.outcome is not None and _occurs(p.outcome, c):
+            escaping.add(c)
+            continue
+        for e in p.effects:
+            terms = [x for x in e[1:] if isinstance(x, tuple)]
+            if e[0] == "call" and e[1][1][0] == "attr" \
+                    and e[1][1][1] == c and e[1][1][2] in _LOCAL_MUT:
+                # only the arguments count, not the receiver position
+                terms = list(e[1][2]) + [v for _, v in e[1][3]]
+            if any(_occurs(t, c) for t in terms):
+                escaping.add(c)
+                break
+    return fresh - escaping
+
+
 def _raw_effects(p):
     out = []
+    hidden = _non_escaping_containers(p)
     for e in p.effects:
+        if hidden and e[0] == "call" and e[1][1][0] == "attr" \
+                and e[1][1][1] in hidden:
+            continue
         if e[0] == "call":
             out.append("call " + A.fmt(e[1]))
         elif e[0] == "store":
@@ -139,6 +181,8 @@ def _raw_effects(p):
                                               A.fmt(e[3])))
         elif e[0] == "slice-store":
             out.append("store %s[:] = %s" % (A.fmt(e[1]), A.fmt(e[2])))
+        elif e[0] == "close":
+            out.append("close " + A.fmt(e[1]))
         elif e[0] == "del-item":
             out.append("del %s[%s]" % (A.fmt(e[1]), A.fmt(e[2])))
     return out
@@ -294,6 +338,14 @@ def _compatible(rval, known):
         for a, v in src_.items():
             if a[0] == "truthy" and a[1] in eqs and A.is_const(eqs[a[1]]) \
                     and bool(eqs[a[1]][1]) != v:
+                return False
+    # values that are None or truthy (regex match objects)
+    merged = dict(rval)
+    merged.update(known)
+    for a, v in merged.items():
+        if a[0] == "truthy" and A.none_or_truthy(a[1]):
+            o = ("isnone", a[1])
+            if o in merged and merged[o] == v:
                 return False
     # ordering against constants
     ords = {}
